@@ -1328,10 +1328,12 @@ def diff_cases(ctx, rng, mk):
                 if stratum(S, range(S.ndim)):
                     ctx.hit(stratum(S, range(S.ndim)))
                 yield mk('Gradient', 'space={} method={} pad={}'.format(tag, method, pad),
-                         lambda S=S, method=method, pad=pad: odl.Gradient(S, method=method, pad_mode=pad))
+                         lambda S=S, method=method, pad=pad: odl.Gradient(S, method=method, pad_mode=pad),
+                         ('gradient', S, None, method, pad))
                 yield mk('Divergence', 'space={} method={} pad={}'.format(tag, method, pad),
                          lambda S=S, method=method, pad=pad: odl.Divergence(
-                             range=S, method=method, pad_mode=pad))
+                             range=S, method=method, pad_mode=pad),
+                         ('divergence', S, None, method, pad))
         for pad in pads:
             if not admits(S, pad, range(S.ndim)):
                 continue
@@ -1340,9 +1342,9 @@ def diff_cases(ctx, rng, mk):
     S = odl.uniform_discr([0, 0], [1.5, 2], (3, 4))
     V = odl.ProductSpace(S, 2, weighting=[1.0, 2.0])
     yield mk('Gradient', 'space=2d range-weighted=array method=forward pad=constant',
-             lambda: odl.Gradient(S, range=V))
+             lambda: odl.Gradient(S, range=V), ('gradient', S, V, 'forward', 'constant'))
     yield mk('Divergence', 'space=2d domain-weighted=array method=forward pad=constant',
-             lambda: odl.Divergence(domain=V, range=S))
+             lambda: odl.Divergence(domain=V, range=S), ('divergence', S, V, 'forward', 'constant'))
 
 
 def resize_cases(ctx, rng, mk):
@@ -1694,6 +1696,18 @@ def emit(tb, spec):
         q = int(np.prod(S.shape[axis + 1:], dtype=int))
         t.append('pderiv;{};{};{};{};{};{}'.format(tb.sp(S), S.shape[axis], q, method, pad,
                                                  fs(float(S.cell_sides[axis]))))
+    elif k in ('gradient', 'divergence'):
+        # round 4: Gradient / Divergence = block column / row of the partial derivatives
+        # (`gradTree` / `divTree` of the model); V = the power space as the code built it
+        _, S, V, method, pad = spec
+        if not is_pspace(V) or len(V) != S.ndim:
+            raise NotModelled('gradient range is not S^ndim')
+        sh = ','.join(str(n) for n in S.shape)
+        dxs = ','.join(fs(float(d)) for d in S.cell_sides)
+        if k == 'gradient':
+            t.append('grad;{};{};{};{};{};{}'.format(tb.sp(S), tb.sp(V), sh, method, pad, dxs))
+        else:
+            t.append('div;{};{};{};{};{};{}'.format(tb.sp(V), tb.sp(S), sh, method, pad, dxs))
     elif k == 'matrixaxis':
         # round 4: MatrixOperator along `axis` of an n-d tensor, shape (p, n, q) -> (p, m, q);
         # `cw` mirrors the code's own test `getattr(weighting, 'const', None)` on both sides
@@ -2242,6 +2256,10 @@ def fill_spec(spec, A):
         return None
     if spec[0] == 'matrix':
         return ('matrix', spec[1], A.domain, A.range)
+    if spec[0] == 'gradient' and spec[2] is None:
+        return ('gradient', spec[1], A.range, spec[3], spec[4])
+    if spec[0] == 'divergence' and spec[2] is None:
+        return ('divergence', spec[1], A.domain, spec[3], spec[4])
     if spec[0] == 'matrixaxis' and spec[2] is None:
         return ('matrixaxis', spec[1], A.domain, A.range, spec[4])
     return spec
@@ -2353,7 +2371,7 @@ def run(ctx):
         'functionals (ScalingFunctional/IdentityFunctional/ZeroFunctional are in the zoo); '
         'PointwiseInnerBase is abstract')
     ctx.extra['classes_tested_only(opaque leaves, no executable model)'] = sorted(
-        c for c in covered if c in ('Gradient', 'Divergence', 'Laplacian',
+        c for c in covered if c in ('Laplacian',
                                     'ResizingOperator', 'ResizingOperatorAdjoint') or c in APPROX)
     n_trees = 300 if ctx.quick else 6000
     run_trees(ctx, n_trees, 3 if ctx.quick else 4, batch)
@@ -2363,7 +2381,8 @@ def run(ctx):
                 'flatteninv', 'proj', 'projadj', 'sum', 'comp', 'lsc', 'rsc', 'lvec', 'rvec',
                 'flv', 'blocks/pso', 'blocks/bcast', 'blocks/red', 'blocks/diag', 'nonlin',
                 'opaque', 'sampling-nd', 'wsum-nd', 'flatten-F', 'flatteninv-F',
-                'matrixaxis/const', 'matrixaxis/bare-transpose', 'partialderiv'}
+                'matrixaxis/const', 'matrixaxis/bare-transpose', 'partialderiv',
+                'gradient', 'divergence'}
     unhit = sorted(b for b in expected if 'model/' + b not in ctx.branches)
     unhit += sorted(b for b in EXPECTED_STRATA if b not in ctx.branches)
     ctx.extra['unhit_model_branches'] = unhit
